@@ -26,10 +26,15 @@ contract(
             "carry_loop_iterations": Union(TrueT, FalseT), "block_scope": Union(TrueT, FalseT)},
     obj_fields=LOOPF,
     obj_protocol="mapping",
+    # class invariant established by __init__ (contract in c_globals): every context knows its render's global data
+    pre=["self.root_globals is not None"],
     post=COPY_POST_COMMON + [
         # isolated copy (render / call): the globals chain is the arguments over the *global* data only
         # always *the caller's namespace object* (the render tag fills it after the copy), never a replacement for an empty one
-        "implies(not block_scope, isinstance(result.globals, ReadOnlyChainMap) and len(result.globals._maps) == 2 and result.globals._maps[0] is namespace and result.globals._maps[1] == self.globals)",
+        # ... the render's own global data (root_globals), NOT the globals of the context copied from: those, when it is itself an
+        # isolated copy, hold the arguments of the enclosing partial / macro, which are not global data
+        "implies(not block_scope, isinstance(result.globals, ReadOnlyChainMap) and len(result.globals._maps) == 2 and result.globals._maps[0] is namespace and result.globals._maps[1] is self.root_globals)",
+        "result.root_globals is self.root_globals",
         # block-scoped copy (block tag inside extends): arguments over the caller's whole scope, by design
         "implies(block_scope, isinstance(result.globals, ReadOnlyChainMap) and len(result.globals._maps) == 2 and result.globals._maps[0] is namespace and result.globals._maps[1] is self.scope)",
         # the block stacks of an inheritance chain are visible to block-scoped copies only: an isolated copy (render, call) starts without any
